@@ -184,11 +184,13 @@ class State:
 
 class SymEx:
     def __init__(self, prog, inline_depth=4, inline_max_blocks=60, inline_pred=None, loop_visits=2,
-                 max_paths=MAX_PATHS, eff=None, havoc_loops=False):
+                 max_paths=MAX_PATHS, eff=None, havoc_loops=False, inner_diverge=False):
         self.prog = prog
         # havoc_loops: on entering a loop, everything the loop may modify (locals assigned / mutably borrowed in it, the whole heap)
         # becomes unknown, so that terms never denote a first-iteration value of loop-carried state (needed for value-range arguments)
         self.havoc_loops = havoc_loops
+        # inner_diverge: also report paths that end in a panic inside an inlined callee (by default only panics of the analysed body itself)
+        self.inner_diverge = inner_diverge
         self._loop_hdr = {}
         self.eff = eff
         self._pure = {}
@@ -407,8 +409,12 @@ class SymEx:
             return ('bin', op.replace('Unchecked', ''), a, c)
         if k == 'unop':
             a = self.operand(b, st, rv['a'])
-            if rv['op'] == 'Not' and self.is_boolish(a):
-                return mk_not(a)
+            if rv['op'] == 'Not':
+                oty = rv['a'].get('pty')
+                if oty is None and rv['a'].get('k') in ('copy', 'move') and not rv['a']['pl'].get('p'):
+                    oty = b.local_ty(rv['a']['pl']['l'])['s']
+                if self.is_boolish(a) or oty == 'bool':
+                    return mk_not(a)
             if rv['op'] == 'PtrMetadata':
                 return ('len', a)
             return ('un', rv['op'], a)
@@ -701,7 +707,7 @@ class SymEx:
         # ---- panics / divergence
         if target is None:
             st.events.append(('diverge', name, tuple(args), line, b.nid))
-            if cont is None:
+            if cont is None or self.inner_diverge:
                 self.npaths += 1
                 out.append(Path(st.conds, None, st.events, True, st.known))
             return None
@@ -715,6 +721,20 @@ class SymEx:
             st.events.append(('call', ext, tuple(args), line, b.nid, self.place_key(b, st, dest), val))
             return finish(val)
         # ---- in-crate
+        if len(targets) > 1:
+            # a trait method called inside a generic body (e.g. a default method calling an accessor of the same trait) fans out to all
+            # impls; the receiver type is the one the calling context was entered through
+            ctx_adts = set()
+            for fn_ in st.frames:
+                fb = prog.bodies.get(fn_)
+                isf = getattr(fb, 'impl_self', None) if fb is not None else None
+                if isf and isf.get('adt'):
+                    ctx_adts.add(norm(isf['adt']))
+                elif fb is not None and '::' in fn_ and not fn_.startswith('<'):
+                    ctx_adts.add(fn_.rsplit('::', 1)[0])
+            cand = [tg for tg in targets if (getattr(prog.bodies[tg], 'impl_self', None) or {}).get('adt') and norm(prog.bodies[tg].impl_self['adt']) in ctx_adts]
+            if len(cand) == 1:
+                targets = cand
         if len(targets) == 1 and self.should_inline(targets[0], depth):
             tg = prog.bodies[targets[0]]
 
@@ -1132,6 +1152,8 @@ class SymEx:
                     self.apply_fn(_clo, [opt[3][0]], s2, depth, out, lambda s3, rv: resume(s3, rv))
             self.iter_next(b, st, args[0], depth, out, line, kq)
             return 'handled'
+        if ext == 'std::iter::from_fn' and args and (raw or args)[0][0] in ('closure', 'fn'):
+            return ('iter_from_fn', (raw or args)[0])
         if ext == 'std::iter::successors' and len(args) == 2 and (raw or args)[1][0] in ('closure', 'fn'):
             # stateful: (successor function, the item the next call of next() yields)
             return ('iter_succ', (raw or args)[1], self.load(st, args[0], b))
@@ -1153,10 +1175,10 @@ class SymEx:
         if ext == 'crossbeam_channel::Receiver::try_iter' and args:
             # draining a channel through its non-blocking iterator is a sequence of try_recv() calls
             return ('chan_iter', args[0])
-        if last == 'next' and args and isinstance(args[0], tuple) and args[0] and args[0][0] in ITER_ADAPTORS + ('chan_iter', 'opt_iter') and ('Iterator' in ext or 'iter::' in ext):
+        if last == 'next' and args and isinstance(args[0], tuple) and args[0] and args[0][0] in ITER_ADAPTORS + ('chan_iter', 'opt_iter', 'iter_from_fn') and ('Iterator' in ext or 'iter::' in ext):
             self.iter_next(b, st, args[0], depth, out, line, resume)
             return 'handled'
-        if ext.endswith('Iterator::take') and len(args) == 2 and isinstance(args[0], tuple) and args[0] and args[0][0] == 'chan_iter':
+        if ext.endswith('Iterator::take') and len(args) == 2 and isinstance(args[0], tuple) and args[0] and args[0][0] in ('chan_iter', 'iter_from_fn'):
             return args[0]
         if (ext.startswith('std::iter::Iterator::') or ' as std::iter::Iterator>::' in ext) and args:
             # lazy adaptors are terms; `next` / `find` / `find_map` on them pull one abstract item through the closures
@@ -1165,7 +1187,7 @@ class SymEx:
                 return ('iter_' + last, args[0], (raw or args)[1])
             if last in ('take_while', 'skip_while') and len(args) == 2 and (raw or args)[1][0] in ('closure', 'fn'):
                 return ('iter_' + last, args[0], (raw or args)[1])
-            if last in ('rev', 'peekable', 'fuse', 'by_ref', 'copied', 'cloned') and isinstance(args[0], tuple) and args[0] and args[0][0] in ITER_ADAPTORS + ('chan_iter', 'opt_iter'):
+            if last in ('rev', 'peekable', 'fuse', 'by_ref', 'copied', 'cloned') and isinstance(args[0], tuple) and args[0] and args[0][0] in ITER_ADAPTORS + ('chan_iter', 'opt_iter', 'iter_from_fn'):
                 return args[0]
             if last in ('find', 'find_map') and len(args) == 2 and (raw or args)[1][0] in ('closure', 'fn'):
                 it = ('iter_filter' if last == 'find' else 'iter_filter_map', args[0], (raw or args)[1])
@@ -1247,6 +1269,9 @@ class SymEx:
                                 k(s3, some(pl))
                     self.apply_fn(clo, [payload], s, depth, out, kfm)
             self.iter_next(b, st, it[1], depth, out, line, k1)
+            return
+        if kind == 'iter_from_fn':
+            self.apply_fn(it[1], [], st, depth, out, lambda s2, rv: [k(s3, some(pl) if is_some else NONE) for (s3, is_some, pl) in self.option_cases(s2, rv)])
             return
         if kind == 'opt_iter':
             for (s2, is_some, pl) in self.option_cases(st, it[1]):
